@@ -29,23 +29,24 @@ MVal(S, t, n) ==       \* a value of type t whose leaves are markers n, n+1, ...
 AField(id, name, t, req, ann) == [id |-> id, name |-> name, t |-> t, req |-> req, def |-> NoDef, ann |-> ann]
 SecDef(sh, req, kind) == [name |-> "Sec", kind |-> kind, items |-> <<>>, target |-> B("i32"),
    fields |-> << AField(1, "secret", sh, req, "go.redact"), AField(2, "plain", B("string"), FALSE, ""), AField(3, "quiet", sh, FALSE, "go.nolog"),
-               AField(4, "hushed", sh, FALSE, Both) >>]
+               AField(4, "hushed", sh, FALSE, Both), AField(5, "after", B("string"), FALSE, "") >>]   \* a plain field declared after the unlogged ones
 HoldDef == [name |-> "Hold", kind |-> "struct", items |-> <<>>, target |-> B("i32"),
    fields |-> << AField(1, "direct", Ref("Sec"), FALSE, ""), AField(2, "inList", ListOf(Ref("Sec")), FALSE, ""),
                  AField(3, "inMapVal", MapOf(B("string"), Ref("Sec")), FALSE, ""), AField(4, "inMapKey", MapOf(Ref("Sec"), B("string")), FALSE, ""),
                  AField(5, "viaTypedef", Ref("SecAlias"), FALSE, ""), AField(6, "viaTdList", Ref("SecList"), FALSE, ""),
                  AField(7, "inSet", SetOf(Ref("Sec")), FALSE, ""),
-                 AField(8, "topSecret", B("string"), FALSE, "go.redact"), AField(9, "topQuiet", B("i32"), FALSE, "go.nolog") >>]
+                 AField(8, "topSecret", B("string"), FALSE, "go.redact"), AField(9, "topQuiet", B("i32"), FALSE, "go.nolog"),
+                 AField(10, "topAfter", B("string"), FALSE, "") >>]
 SchemaFor(sh, req, kind) == Support \o << SecDef(sh, req, kind), Td("SecAlias", Ref("Sec")), Td("SecList", ListOf(Ref("Sec"))), HoldDef >>
 
 SecVal(S, sh, k) == St(<< F("secret", MVal(S, sh, 30 * k)), F("plain", Str(MkStr(30 * k + 16))), F("quiet", MVal(S, sh, 30 * k + 8)),
-                           F("hushed", MVal(S, sh, 30 * k + 20)) >>)
+                           F("hushed", MVal(S, sh, 30 * k + 20)), F("after", Str(MkStr(30 * k + 28))) >>)
 HoldVal(S, sh) == St(<< F("direct", SecVal(S, sh, 1)), F("inList", LV(<< SecVal(S, sh, 2), SecVal(S, sh, 3) >>)),
                         F("inMapVal", MV(<< [k |-> Str(<<107, 49>>), v |-> SecVal(S, sh, 4)] >>)),
                         F("inMapKey", MV(<< [k |-> SecVal(S, sh, 5), v |-> Str(<<118>>)] >>)),
                         F("viaTypedef", SecVal(S, sh, 6)), F("viaTdList", LV(<< SecVal(S, sh, 7) >>)),
                         F("inSet", SV(<< SecVal(S, sh, 8) >>)),
-                        F("topSecret", Str(MkStr(990))), F("topQuiet", I(MkInt(991))) >>)
+                        F("topSecret", Str(MkStr(990))), F("topQuiet", I(MkInt(991))), F("topAfter", Str(MkStr(992))) >>)
 
 Configs == { [sh |-> sh, req |-> rq, kind |-> kd] : sh \in SecretShapes, rq \in BOOLEAN, kd \in {"struct", "exception"} }
 CSeq == SetToSeq(Configs)
